@@ -373,6 +373,28 @@ func (c *Ctx) symxRun() *simpleVerdict {
 		}
 		specials = append(specials, special{first, []string{"<=>", "<<=", "<>", "<=a", "===", ">>=", "<<", "<a", "=", ">>>", "!="}, rest})
 	}
+	// "each with its own token type": every token type the library defines (the first of them, whose value is
+	// zero, in particular) as the type of a one-character symbol, of a longer one, of a one-character symbol
+	// registered after a longer one that starts with it, and of the middle and the longest member of a chain
+	ttNames := c.constNames("tokenizers", "")
+	var tts []int64
+	for t := range ttNames {
+		tts = append(tts, t)
+	}
+	sort.Slice(tts, func(i, j int) bool { return tts[i] < tts[j] })
+	for _, t := range tts {
+		specials = append(specials,
+			special{[]symReg{{"<", t}}, []string{"<", "<a", "<=", "<<", "a"}, nil},
+			special{[]symReg{{"<=", t}}, []string{"<=", "<=a", "<=>", "<", "<a", "<=<="}, nil},
+			special{[]symReg{{"<=", 101}, {"<", t}}, []string{"<", "<a", "<=", "<<", "<=a"}, nil},
+			special{[]symReg{{"<", 101}, {"<=", t}, {"<=>", 102}}, []string{"<=", "<=a", "<==", "<=>", "<", "<a"}, nil},
+			special{[]symReg{{"<=>", t}, {"<=", 101}}, []string{"<=>", "<=>a", "<=", "<=a", "<"}, nil},
+			special{[]symReg{{"≤≥", t}, {"=", t}}, []string{"≤≥", "≤≥a", "≤", "≤a", "=", "=≤≥"}, []symReg{{"≤≥≤", t}}},
+		)
+		// (a one-character symbol followed by the registration of a longer symbol with the same first character
+		// is left to the sets with distinct non-zero types above: with the zero type, Add("=",0); Add("=≤",0)
+		// makes "=" a plain Symbol on the unchanged tree - reported separately, not part of this family)
+	}
 	ctor := c.MustFunc("tokenizers/generic", "", "NewGenericSymbolState")
 	st := ctor.Signature.Results().At(0).Type()
 	newScanner := c.MustFunc("io", "", "NewStringScanner")
